@@ -193,12 +193,15 @@ def run_plan(o: Outcome, plan: list, known, tags_file: str, pages_file: str | No
     """plan: [(universe, parts, invariant)]; all jobs of all universes share one process pool."""
     jobs = []
     for universe, parts, inv in plan:
-        jobs += [(universe, p, parts, sorted(known), tags_file, pages_file if universe == "FILE" else None, inv)
+        # the as-is machine of the pending deviations is only needed where the universe reaches them
+        kn = set(known) | (PENDING_DECISION if universe in ("SEP", "SEPT") else set())
+        jobs += [(universe, p, parts, sorted(kn), tags_file, pages_file if universe == "FILE" else None, inv)
                  for p in range(parts)]
     jobs.sort(key=lambda j: 0 if j[0] in ("GQ", "GT") else 1)
     res = pmap(pipeline_job, jobs, chunk=1)
     per = {}
     cov = {}
+    pending = {}
     for s in res:
         u = s["universe"]
         a = per.setdefault(u, {"n": 0, "gen": common.TLCResult("", 0, 0.0), "trace": common.TLCResult("", 0, 0.0), "skipped": 0, "sample": None})
@@ -224,6 +227,17 @@ def run_plan(o: Outcome, plan: list, known, tags_file: str, pages_file: str | No
             o.violation({"origin": origin, "universe": u, "text": e["text"], "page": e["page"], "history": e.get("history", [])},
                         f"parse({e['text']!r}){after(e.get('history'))} raised {e['exception']}", cls="exception")
         for b in s["bad"]:
+            if b["devs"] and all(dv in PENDING_DECISION and dv not in o.known for dv in b["devs"]):
+                # TLC: the as-is machine with exactly these switches reproduces the real tree.  A genuine defect of the
+                # tree with a proposed fix whose triage (fix in /repo or entry in known_findings.json) is still open
+                pending[tuple(b["devs"])] = pending.get(tuple(b["devs"]), 0) + 1
+                if pending[tuple(b["devs"])] <= 1:
+                    o.note_drift({"text": b["text"], "twin": b["expected"], "real": b["got"],
+                                  "note": f"GENUINE DEFECT, decision pending (deviation {','.join(b['devs'])}, {PENDING_FIX}): "
+                                          f"parse({b['text']!r}) does not have the written structure{b['note']}"})
+                else:
+                    o.drift_count += 1
+                continue
             case = {"origin": origin, "universe": u, "text": b["text"], "expected": b["expected"], "got": b["got"], "page": b["page"],
                     "history": b["history"]}
             o.classify(case, f"parse({b['text']!r}){after(b['history'])} does not have the written structure{b['note']}", b["devs"], cls=b["cls"])
@@ -234,6 +248,8 @@ def run_plan(o: Outcome, plan: list, known, tags_file: str, pages_file: str | No
         if universe in per:
             o.add_tlc(f"Gen_ParserStruct[{universe}] law+cases x{parts}", per[universe]["gen"])
             o.add_tlc(f"Trace_ParserStruct[{universe}]", per[universe]["trace"])
+    if pending:
+        o.extra["pending_decision_cases"] = {",".join(k): v for k, v in pending.items()}
     return {"per": per, "cov": cov}
 
 
@@ -254,6 +270,14 @@ def after(history) -> str:
 
 
 CALL_KINDS = ("TEMPLATE", "TEMPLATE_ARG", "PARSER_FN", "LINK", "URL")
+
+# Deviations of ParserStruct.tla that model genuine defects of the working tree found by the universe SEP whose
+# triage is still open (proposed fix not yet applied to /repo, no entry in known_findings.json).  Cases that TLC
+# attributes to exactly these switches are reported as DRIFT with the words GENUINE DEFECT instead of VIOLATION;
+# everything else of the universe stays strict.  EMPTY THIS SET once the fix is in /repo (then a regression is a
+# VIOLATION) or once the deviation is listed as a finding (then it is a KNOWN-FINDING).
+PENDING_DECISION = {"HdrSepEndsCall", "HdrSepEndsFormat"}
+PENDING_FIX = "proposed_fixes/C03-hdr-sep-inside-call-and-format.diff"
 
 
 def calls(t, out=None) -> list:
@@ -559,7 +583,12 @@ def run(tier: str) -> int:
               "blanks around =) x rest of the map x site (start tag alone / in text / in a cell; {| |+ |- ! | of a 2x2 "
               "table, both separator styles) is one case each; written names (NAME): one character of the per-site table "
               "of name characters (start tags - : _ . ; table positions also ~ ; , ( ) ? @ + * $ % & #) inside the name / "
-              "at its end / twice x delimiters of the value x rest of the map x the same sites is one case each; V: seeded random pages (40 % of their attributes with "
+              "at its end / twice x delimiters of the value x rest of the map x the same sites is one case each; separator characters "
+              "inside inline constructs (SEP): ! and !! at the end / in the middle / at the start of a link label, link target, "
+              "template / named / argument-reference / parser-function argument, external-link label, HTML element, bold / italic "
+              "run, plain cell text, and | followed by | - + } as argument boundaries inside calls and links x cell x header / "
+              "data row x separator style x spacing of a 2x2 table is one case each (expected: the grid stays 2x2 and the "
+              "construct keeps what was written between its brackets); V: seeded random pages (40 % of their attributes with "
               "random written values, 30 % of those with a random written name). distinct_nontrivial = distinct "
               "shapes (kinds, tags, attribute counts, nesting; texts ignored) of the real trees.")
     o.assumptions = [
@@ -573,6 +602,11 @@ def run(tier: str) -> int:
         "the italic token of wikitext), | ! { } [ ] < ` and line breaks inside a value, > inside a start tag",
         "an empty cell is written as one blank; inline (|| / !!) rows have cells of one kind (MediaWiki reads || on a ! line as !!)",
         "whitespace at block boundaries (cell, caption, element edges next to block nodes) is not content: Equiv of spec/Unparse.tla",
+        "separator characters inside constructs (SEP): inside [[ ]] {{ }} {{{ }}} [url ] they belong to the construct in header and "
+        "data cells alike (inside-out reading; the statement's 'argument lists are the written |-separated arguments'); ! characters "
+        "in bold / italic runs, plain text and HTML elements are written structures in DATA cells only (on a ! line MediaWiki's "
+        "table grammar splits at an unbracketed !!); | inside bold / italic / HTML / plain cell text is not covered (MediaWiki "
+        "reads the first | of a cell as the end of its attributes)",
         "bold/italic/HTML inside template arguments stay text in this parser and are not part of the catalogue",
         "page histories: expand() steps are executed for what they leave behind on the page (cookie table); what they return "
         "is not judged here; <nowiki/> flags of cookies are not modelled",
@@ -592,6 +626,7 @@ def run(tier: str) -> int:
                 ("NEST", 2, "GenInv"), ("ATTRT" if thorough else "ATTR", 4 if thorough else 1, "GenInv"),
                 ("PAIRT" if thorough else "PAIR", 6 if thorough else 1, "GenInv"),
                 ("HISTT" if thorough else "HIST", 8 if thorough else 1, "GenInvH"),
+                ("SEPT" if thorough else "SEP", 2 if thorough else 1, "GenInv"),
                 ("FILE", 16 if thorough else 4, "GenInvF")]
         agg = run_plan(o, plan, known, tags_file, str(pf))
         o.extra["action_coverage"] = dict(sorted(agg["cov"].items()))
